@@ -1,0 +1,17 @@
+//go:build verif
+// +build verif
+
+// Package verifhook exposes the internal instrumentation points to the external verification
+// harness (build tag verif only).
+package verifhook
+
+import "github.com/bytedance/sonic/internal/vhook"
+
+// Set installs f as the receiver of all instrumentation points (nil removes it).
+func Set(f func(point string, a uintptr)) {
+	if f == nil {
+		vhook.Set(nil)
+		return
+	}
+	vhook.Set(vhook.Func(f))
+}
